@@ -71,6 +71,7 @@ FnOf(P, f) == LET S == {i \in 1..Len(P.fns) : P.fns[i].name = f} IN
 ElemTy(ty) == IF ty = "list[int]" THEN "int" ELSE IF ty = "list[str]" THEN "str" ELSE "err"
 
 RECURSIVE TypeOf(_, _, _)
+RECURSIVE TypeOfData(_, _, _)
 ArgsOK(args, params, sc, P) ==
   Len(args) = Len(params) /\ \A i \in 1..Len(args) : TypeOf(args[i], sc, P) = params[i].ty
 TypeOf(e, sc, P) ==
@@ -109,6 +110,80 @@ TypeOf(e, sc, P) ==
                         ELSE LET t1 == TypeOf(e.items[1], sc, P) IN
                              IF t1 \in {"int", "str"} /\ \A i \in 1..Len(e.items) : TypeOf(e.items[i], sc, P) = t1
                                THEN (IF t1 = "int" THEN "list[int]" ELSE "list[str]") ELSE "err"
+    [] OTHER -> TypeOfData(e, sc, P)
+
+\* ---------------------------------------------------------------- data types (models, enums, Option, Result, match, ?)
+\* P.types: sequence of [k |-> "model", name, fields : Seq([name, ty])] | [k |-> "enum", name, variants : Seq([name, tys])]
+\* type names are strings; the container types of the modelled subset are "opt[int]" and "res[int,str]"
+TypeDecl(P, n) == LET S == {i \in 1..Len(P.types) : P.types[i].name = n} IN
+                  IF S = {} THEN [k |-> "none", name |-> n] ELSE P.types[CHOOSE i \in S : TRUE]
+FieldTy(td, f) == LET S == {i \in 1..Len(td.fields) : td.fields[i].name = f} IN
+                  IF S = {} THEN "err" ELSE td.fields[CHOOSE i \in S : TRUE].ty
+VariantOf(td, v) == LET S == {i \in 1..Len(td.variants) : td.variants[i].name = v} IN
+                    IF S = {} THEN [found |-> FALSE] ELSE [found |-> TRUE, d |-> td.variants[CHOOSE i \in S : TRUE]]
+\* pattern typing: returns [ok, binds : Seq([name, ty])] for a pattern against subject type ty
+RECURSIVE PatTy(_, _, _)
+RECURSIVE PatsTy(_, _, _, _)
+PatsTy(ps, tys, P, acc) ==
+  IF ps = <<>> THEN [ok |-> TRUE, binds |-> acc]
+  ELSE LET r == PatTy(ps[1], tys[1], P) IN
+       IF ~r.ok THEN [ok |-> FALSE, binds |-> <<>>] ELSE PatsTy(Tail(ps), Tail(tys), P, acc \o r.binds)
+PatTy(p, ty, P) ==
+  CASE p.k = "pwild" -> [ok |-> TRUE, binds |-> <<>>]
+    [] p.k = "pbind" -> [ok |-> TRUE, binds |-> <<[name |-> p.name, ty |-> ty]>>]
+    [] p.k = "plit"  -> [ok |-> p.lit.lk = ty /\ ty \in {"int", "bool", "str"}, binds |-> <<>>]
+    [] p.k = "pctor" ->
+         IF ty = "opt[int]" THEN
+            (IF p.name = "Some" /\ Len(p.pats) = 1 THEN PatTy(p.pats[1], "int", P)
+             ELSE [ok |-> p.name = "None" /\ p.pats = <<>>, binds |-> <<>>])
+         ELSE IF ty = "res[int,str]" THEN
+            (IF p.name = "Ok" /\ Len(p.pats) = 1 THEN PatTy(p.pats[1], "int", P)
+             ELSE IF p.name = "Err" /\ Len(p.pats) = 1 THEN PatTy(p.pats[1], "str", P)
+             ELSE [ok |-> FALSE, binds |-> <<>>])
+         ELSE LET td == TypeDecl(P, ty) IN
+              IF td.k # "enum" THEN [ok |-> FALSE, binds |-> <<>>]
+              ELSE LET v == VariantOf(td, p.name) IN
+                   IF ~v.found \/ Len(v.d.tys) # Len(p.pats) THEN [ok |-> FALSE, binds |-> <<>>]
+                   ELSE PatsTy(p.pats, v.d.tys, P, <<>>)
+    [] OTHER -> [ok |-> FALSE, binds |-> <<>>]
+\* exhaustiveness (the documented rule): a wildcard / binding arm without guard, or every variant named by an unguarded arm
+Irrefutable(a) == a.guard = <<>> /\ a.pat.k \in {"pwild", "pbind"}
+CoversVariant(arms, v) == \E i \in 1..Len(arms) : arms[i].guard = <<>> /\ arms[i].pat.k = "pctor" /\ arms[i].pat.name = v
+                                                     /\ \A j \in 1..Len(arms[i].pat.pats) : arms[i].pat.pats[j].k \in {"pwild", "pbind"}
+Exhaustive(arms, ty, P) ==
+  \/ \E i \in 1..Len(arms) : Irrefutable(arms[i])
+  \/ (ty = "opt[int]" /\ CoversVariant(arms, "Some") /\ CoversVariant(arms, "None"))
+  \/ (ty = "res[int,str]" /\ CoversVariant(arms, "Ok") /\ CoversVariant(arms, "Err"))
+  \/ (TypeDecl(P, ty).k = "enum" /\ \A i \in 1..Len(TypeDecl(P, ty).variants) : CoversVariant(arms, TypeDecl(P, ty).variants[i].name))
+RECURSIVE BindPats(_, _)
+BindPats(sc, bs) == IF bs = <<>> THEN sc ELSE BindPats(Bind(sc, bs[1].name, bs[1].ty, FALSE), Tail(bs))
+TypeOfData(e, sc, P) ==
+  CASE e.k = "ctor" ->
+         LET td == TypeDecl(P, e.name) IN
+         IF /\ td.k = "model" /\ Len(e.fnames) = Len(td.fields)
+            /\ (\A i \in 1..Len(td.fields) : \E j \in 1..Len(e.fnames) : e.fnames[j] = td.fields[i].name /\ TypeOf(e.args[j], sc, P) = td.fields[i].ty)
+            /\ (\A i2, j2 \in 1..Len(e.fnames) : i2 # j2 => e.fnames[i2] # e.fnames[j2])
+           THEN e.name ELSE "err"
+    [] e.k = "field" -> LET td == TypeDecl(P, TypeOf(e.obj, sc, P)) IN IF td.k = "model" THEN FieldTy(td, e.field) ELSE "err"
+    [] e.k = "variant" -> LET td == TypeDecl(P, e.ty) IN
+                          IF td.k # "enum" THEN "err"
+                          ELSE LET v == VariantOf(td, e.name) IN
+                               IF v.found /\ Len(v.d.tys) = Len(e.args) /\ (\A i \in 1..Len(e.args) : TypeOf(e.args[i], sc, P) = v.d.tys[i])
+                                 THEN e.ty ELSE "err"
+    [] e.k = "some" -> IF TypeOf(e.e, sc, P) = "int" THEN "opt[int]" ELSE "err"
+    [] e.k = "nonelit" -> "opt[int]"
+    [] e.k = "ok" -> IF TypeOf(e.e, sc, P) = "int" THEN "res[int,str]" ELSE "err"
+    [] e.k = "errx" -> IF TypeOf(e.e, sc, P) = "str" THEN "res[int,str]" ELSE "err"
+    [] e.k = "try" -> IF TypeOf(e.e, sc, P) = "res[int,str]" /\ Lookup(sc, "$ret").ty = "res[int,str]" THEN "int" ELSE "err"
+    [] e.k = "match" ->
+         LET ty == TypeOf(e.subj, sc, P) IN
+         IF ty = "err" \/ e.arms = <<>> \/ ~Exhaustive(e.arms, ty, P) THEN "err"
+         ELSE LET armTy(a) == LET pt == PatTy(a.pat, ty, P) IN
+                              IF ~pt.ok THEN "err"
+                              ELSE LET sc2 == BindPats(Append(sc, EmptyScope), pt.binds) IN
+                                   IF a.guard # <<>> /\ TypeOf(a.guard[1], sc2, P) # "bool" THEN "err" ELSE TypeOf(a.e, sc2, P)
+                  t1 == armTy(e.arms[1]) IN
+              IF t1 \notin {"err", "none"} /\ (\A i \in 1..Len(e.arms) : armTy(e.arms[i]) = t1) THEN t1 ELSE "err"
     [] OTHER -> "err"
 
 \* statements: returns [ok, sc]; ctx = [loop, ret] (inside a loop? declared return type)
@@ -168,7 +243,7 @@ Accept(P) ==
   /\ ConstsOK(P)
   /\ \A i \in 1..Len(P.fns) :
        LET f == P.fns[i] IN
-       CheckBlock(f.body, BindAll(Append(ModuleScope(P), EmptyScope), f.params), [loop |-> FALSE, ret |-> f.ret], P)
+       CheckBlock(f.body, Bind(BindAll(Append(ModuleScope(P), EmptyScope), f.params), "$ret", f.ret, FALSE), [loop |-> FALSE, ret |-> f.ret], P)
   /\ \E i \in 1..Len(P.fns) : P.fns[i].name = "main" /\ P.fns[i].params = <<>> /\ P.fns[i].ret = "none"
 
 \* ================================================================ dynamic semantics
@@ -212,8 +287,12 @@ RECURSIVE EvalArgs(_, _, _, _)
 RECURSIVE ExecBlock(_, _, _)
 RECURSIVE ExecWhile(_, _, _)
 RECURSIVE ExecFor(_, _, _, _)
+RECURSIVE EvalData(_, _, _)
+RECURSIVE MatchPat(_, _)
+RECURSIVE MatchPats(_, _, _)
 \* result of an expression: [ok, v, err, st] (st carries out / fuel changes made by calls)
 R(ok, v, err, st) == [ok |-> ok, v |-> v, err |-> err, st |-> st]
+PopTo(st, n) == [st EXCEPT !.env = SubSeq(@, 1, n)]
 EvalArgs(args, st, P, acc) ==
   IF args = <<>> THEN R(TRUE, ListV(acc), "", st)
   ELSE LET r == EvalE(args[1], st, P) IN
@@ -287,10 +366,64 @@ EvalE(e, st, P) ==
                                                                      !.ret = NoneVal], P) IN
                         IF inner.sig = "err" THEN R(FALSE, NoneVal, inner.err, inner)
                         ELSE R(TRUE, inner.ret, "", [inner EXCEPT !.env = as.st.env, !.sig = "n", !.ret = as.st.ret])
+    [] OTHER -> EvalData(e, st, P)
+
+\* ---- data values: [t |-> "model", ty, fs (function field -> value)], [t |-> "enum", ty, var, pay (Seq)],
+\*      [t |-> "some", pv], [t |-> "nonev"], [t |-> "okv", pv], [t |-> "errv", pv]
+\* pattern matching: [ok, binds (function name -> value)]
+MatchPats(ps, vs, acc) ==
+  IF ps = <<>> THEN [ok |-> TRUE, binds |-> acc]
+  ELSE LET r == MatchPat(ps[1], vs[1]) IN
+       IF ~r.ok THEN [ok |-> FALSE, binds |-> acc] ELSE MatchPats(Tail(ps), Tail(vs), r.binds @@ acc)
+MatchPat(p, v) ==
+  CASE p.k = "pwild" -> [ok |-> TRUE, binds |-> <<>>]
+    [] p.k = "pbind" -> [ok |-> TRUE, binds |-> (p.name :> v)]
+    [] p.k = "plit"  -> [ok |-> (CASE p.lit.lk = "int" -> v.iv = p.lit.iv [] p.lit.lk = "bool" -> v.bv = p.lit.bv
+                                   [] p.lit.lk = "str" -> v.sv = p.lit.sv), binds |-> <<>>]
+    [] p.k = "pctor" ->
+         IF v.t = "some" THEN (IF p.name = "Some" THEN MatchPat(p.pats[1], v.pv) ELSE [ok |-> FALSE, binds |-> <<>>])
+         ELSE IF v.t = "nonev" THEN [ok |-> p.name = "None", binds |-> <<>>]
+         ELSE IF v.t = "okv" THEN (IF p.name = "Ok" THEN MatchPat(p.pats[1], v.pv) ELSE [ok |-> FALSE, binds |-> <<>>])
+         ELSE IF v.t = "errv" THEN (IF p.name = "Err" THEN MatchPat(p.pats[1], v.pv) ELSE [ok |-> FALSE, binds |-> <<>>])
+         ELSE IF v.var = p.name THEN MatchPats(p.pats, v.pay, <<>>) ELSE [ok |-> FALSE, binds |-> <<>>]
+EvalData(e, st, P) ==
+  CASE e.k = "ctor" ->
+         LET as == EvalArgs(e.args, st, P, <<>>) IN
+         IF ~as.ok THEN as
+         ELSE R(TRUE, [t |-> "model", ty |-> e.name,
+                       fs |-> [f \in {e.fnames[i] : i \in 1..Len(e.fnames)} |-> as.v.xs[CHOOSE i \in 1..Len(e.fnames) : e.fnames[i] = f]]], "", as.st)
+    [] e.k = "field" -> LET o == EvalE(e.obj, st, P) IN IF ~o.ok THEN o ELSE R(TRUE, o.v.fs[e.field], "", o.st)
+    [] e.k = "variant" -> LET as == EvalArgs(e.args, st, P, <<>>) IN
+                          IF ~as.ok THEN as ELSE R(TRUE, [t |-> "enum", ty |-> e.ty, var |-> e.name, pay |-> as.v.xs], "", as.st)
+    [] e.k = "some" -> LET a == EvalE(e.e, st, P) IN IF ~a.ok THEN a ELSE R(TRUE, [t |-> "some", pv |-> a.v], "", a.st)
+    [] e.k = "nonelit" -> R(TRUE, [t |-> "nonev"], "", st)
+    [] e.k = "ok" -> LET a == EvalE(e.e, st, P) IN IF ~a.ok THEN a ELSE R(TRUE, [t |-> "okv", pv |-> a.v], "", a.st)
+    [] e.k = "errx" -> LET a == EvalE(e.e, st, P) IN IF ~a.ok THEN a ELSE R(TRUE, [t |-> "errv", pv |-> a.v], "", a.st)
+    [] e.k = "try" -> LET a == EvalE(e.e, st, P) IN
+                      IF ~a.ok THEN a
+                      ELSE IF a.v.t = "okv" THEN R(TRUE, a.v.pv, "", a.st)
+                      ELSE R(FALSE, a.v, "$EARLY-RETURN", a.st)            \* `?` on Err: the function returns the Err value
+    [] e.k = "match" ->
+         LET s0 == EvalE(e.subj, st, P) IN
+         IF ~s0.ok THEN s0
+         ELSE LET n == Len(s0.st.env)
+                  RECURSIVE Arms(_, _)
+                  Arms(k, cur) ==
+                    IF k > Len(e.arms) THEN R(FALSE, NoneVal, "UNSPECIFIED: no arm matched", cur)
+                    ELSE LET m == MatchPat(e.arms[k].pat, s0.v) IN
+                         IF ~m.ok THEN Arms(k + 1, cur)
+                         ELSE LET inner == [cur EXCEPT !.env = Append(@, m.binds)] IN
+                              IF e.arms[k].guard = <<>> THEN
+                                 LET r == EvalE(e.arms[k].e, inner, P) IN [r EXCEPT !.st = PopTo(r.st, n)]
+                              ELSE LET g == EvalE(e.arms[k].guard[1], inner, P) IN
+                                   IF ~g.ok THEN [g EXCEPT !.st = PopTo(g.st, n)]
+                                   ELSE IF g.v.bv THEN LET r == EvalE(e.arms[k].e, g.st, P) IN [r EXCEPT !.st = PopTo(r.st, n)]
+                                   ELSE Arms(k + 1, PopTo(g.st, n)) IN
+              Arms(1, s0.st)
     [] OTHER -> R(FALSE, NoneVal, "UNSPECIFIED: unknown expression kind", st)
 
-ErrSt(st, r) == [r.st EXCEPT !.sig = "err", !.err = r.err]
-PopTo(st, n) == [st EXCEPT !.env = SubSeq(@, 1, n)]
+ErrSt(st, r) == IF r.err = "$EARLY-RETURN" THEN [r.st EXCEPT !.sig = "ret", !.ret = r.v]
+                ELSE [r.st EXCEPT !.sig = "err", !.err = r.err]
 ExecStmt(s, st, P) ==
   CASE s.k = "print" -> LET r == EvalE(s.e, st, P) IN
                         IF r.ok THEN [r.st EXCEPT !.out = Append(@, r.v)] ELSE ErrSt(st, r)
